@@ -3,10 +3,8 @@
 
    What is proved (all `_partial`, for two separate reasons that the names and the manifest state):
    (a) side conditions: [shape_ok_b] leaves out the G_core sentences that the *current* MontePy cannot lex as
-       intended — particle designators that are also keywords (u x y z), the designator c (taken for a comment
-       line) or special symbols that FILE_PATH swallows, the "+" tally modifier, an empty SDEF, padding right after
-       the "(" of a FILL/TRCL value, a library-less ZAID after one with a library, a library identifier ending in
-       e, a non-integer xM factor — each of which the harness finds as a concrete rejected sentence (known
+       intended — the particle designators u x y z c outside a classifier (MODE lists, PAR=), special-symbol
+       designators that FILE_PATH swallows, a non-integer xM factor — each of which the harness finds as a concrete rejected sentence (known
        findings), and for several of which a `_refuted` statement is computed here on the generated LALR automaton;
    (b) the honest limit: derivability in the context-free grammar whose productions are SLY's table does not imply
        that the LALR(1) automaton SLY builds from it (with its conflict resolution) accepts the sentence, nor that
@@ -72,8 +70,8 @@ Proof. vm_compute. reflexivity. Qed.
 Print Assumptions C12_tables_mnemonics.
 (* every particle designator the shapes admit is in _PARTICLES (and in the Particle enumeration) *)
 Theorem C12_tables_particles :
-  missing_str (core_letter_particles ++ core_special_particles ++ core_dist_options) Gen.Tables.particles = []
-  /\ missing_str (core_letter_particles ++ core_special_particles) Gen.Tables.particle_enum = [].
+  missing_str (core_classifier_particles ++ core_special_particles ++ core_dist_options) Gen.Tables.particles = []
+  /\ missing_str (core_classifier_particles ++ core_special_particles) Gen.Tables.particle_enum = [].
 Proof. split; vm_compute; reflexivity. Qed.
 Print Assumptions C12_tables_particles.
 (* ... and the word-class function of the lexers (keyword first, then particle / surface type) gives them the
@@ -195,6 +193,10 @@ Theorem C12_sdef_derivable_partial : forall s, sdef_shape s ->
   Derives Gen.Grammar.param_only_productions "param_data_input" (classes (sdef_toks s)).
 Proof. exact (sdef_derivable _ Hparam_only). Qed.
 Print Assumptions C12_sdef_derivable_partial.
+Theorem C12_sdef_bare_derivable_partial : forall s,
+  Derives Gen.Grammar.param_only_productions "param_data_input" (classes (sdef0_toks s)).
+Proof. exact (sdef0_derivable _ Hparam_only). Qed.
+Print Assumptions C12_sdef_bare_derivable_partial.
 (* the classifier of every data shape is a sentence of ClassifierParser (what parse_data parses first) *)
 Theorem C12_classifier_derivable_partial : forall sh, classifier_toks sh <> [] ->
   Derives Gen.Grammar.classifier_productions "data_classifier" (classes (classifier_toks sh)).
@@ -286,25 +288,12 @@ Proof. repeat split; vm_compute; reflexivity. Qed.
 (* ------------------------------------------------------------------ 7. G_core sentences the generated automaton
    rejects.  The class lists are the classes the *real* lexer gives these texts (the harness replays each text
    through the real lexer and the real parser on every run and compares). *)
-(* "+f6:n 1": the data lexer turns "+f6" into one FILE_PATH token *)
-Theorem C12_plus_tally_refuted :
-  lr_run lr_classifier ["FILE_PATH"; ":"; "PARTICLE"] <> LRAccept
-  /\ lr_run lr_tally ["FILE_PATH"; ":"; "PARTICLE"; "SPACE"; "NUMBER"] <> LRAccept.
-Proof. split; vm_compute; discriminate. Qed.
-Print Assumptions C12_plus_tally_refuted.
-(* "1 0 -1 imp:u=1": u is a keyword before it is a particle *)
+(* "mode n u": in a list of particles u is a keyword before it is a particle (after the ":" of a classifier the
+   lexers read it as a particle since the repair of IMP:u) *)
 Theorem C12_particle_keyword_refuted :
-  lr_run lr_cell ["NUMBER"; "SPACE"; "NULL"; "SPACE"; "NUMBER"; "SPACE"; "KEYWORD"; ":"; "KEYWORD"; "="; "NUMBER"]
-  <> LRAccept
-  /\ lr_run lr_data ["TEXT"; "SPACE"; "PARTICLE"; "SPACE"; "KEYWORD"] <> LRAccept.
-Proof. split; vm_compute; discriminate. Qed.
-Print Assumptions C12_particle_keyword_refuted.
-(* "1 0 -1 fill=1 ( 1 2 3)": no production for padding after the parenthesis of a FILL/TRCL value *)
-Theorem C12_fill_paren_padding_refuted :
-  lr_run lr_cell ["NUMBER"; "SPACE"; "NULL"; "SPACE"; "NUMBER"; "SPACE"; "KEYWORD"; "="; "NUMBER"; "SPACE"; "(";
-                  "SPACE"; "NUMBER"; "SPACE"; "NUMBER"; "SPACE"; "NUMBER"; ")"] <> LRAccept.
+  lr_run lr_data ["TEXT"; "SPACE"; "PARTICLE"; "SPACE"; "KEYWORD"] <> LRAccept.
 Proof. vm_compute. discriminate. Qed.
-Print Assumptions C12_fill_paren_padding_refuted.
+Print Assumptions C12_particle_keyword_refuted.
 (* the honest limit made concrete: "e4 1 2m r" (a repeat right after a multiply) satisfies the shape predicate, so
    it is derivable in the generated grammar — and the LALR(1) automaton SLY built from that grammar rejects it *)
 Definition ex_gap : datacard :=
@@ -321,13 +310,42 @@ Proof.
   vm_compute. discriminate.
 Qed.
 Print Assumptions C12_derivable_not_accepted_refuted.
-(* "sdef" alone *)
-Theorem C12_sdef_empty_refuted : lr_run lr_param_only ["TEXT"] <> LRAccept.
-Proof. vm_compute. discriminate. Qed.
-Print Assumptions C12_sdef_empty_refuted.
-(* "m1 1001.80c 1 8016 1": a library-less ZAID after one with a library *)
-Theorem C12_material_mixed_order_refuted :
-  lr_run lr_material ["TEXT"; "NUMBER"; "SPACE"; "ZAID"; "SPACE"; "NUMBER"; "SPACE"; "NUMBER"; "SPACE"; "NUMBER"]
-  <> LRAccept.
-Proof. vm_compute. discriminate. Qed.
-Print Assumptions C12_material_mixed_order_refuted.
+(* ------------------------------------------------------------------ 8. sentences that were rejected before the
+   repairs C12-5 .. C12-11 and are sentences of the shape predicate now: accepted by the generated automaton *)
+Definition ex_plus_tally : tallycard :=
+  mkTally None (mkDcls (Some "+") "f" (Some 6%Z) [(false, "n")]) (Some b1)
+    (TINums (NLOne (NNum (ri [1])) None)) [] None.
+Example C12_plus_tally_example :
+  tally_shape ex_plus_tally /\ render (tally_toks ex_plus_tally) = "+f6:n 1"
+  /\ lr_run lr_tally (classes (tally_toks ex_plus_tally)) = LRAccept
+  /\ lr_run lr_classifier (classes (classifier_toks (ShTally ex_plus_tally))) = LRAccept.
+Proof. repeat split; vm_compute; reflexivity. Qed.
+Definition ex_imp_u : cell :=
+  mkCell None (ri [1]) b1 (MVoid (ri [0]) b1) (EOne (TOne (FLeaf (mkReal SMinus [1] None None))) (Some b1))
+    [mkCParam false "imp" None ["u"; "c"] (SepEq None None) (CVList (NLOne (NNum (ri [1])) None))].
+Example C12_classifier_particle_example :
+  cell_shape ex_imp_u /\ render (cell_toks ex_imp_u) = "1 0 -1 imp:u,c=1"
+  /\ lr_run lr_cell (classes (cell_toks ex_imp_u)) = LRAccept.
+Proof. repeat split; vm_compute; reflexivity. Qed.
+Definition ex_fill_pad : cell :=
+  mkCell None (ri [1]) b1 (MVoid (ri [0]) b1)
+    (EOne (TAnd (TOne (FPar None (EOr (EOne (TOne (FLeaf (ri [1]))) None) None (TOne (FLeaf (ri [2]))) None)))
+                None (FComplCell (ri [3]))) (Some b1))
+    [mkCParam false "fill" None [] (SepEq None None)
+       (CVGroup (CVList (NLOne (NNum (ri [1])) (Some b1))) (Some b1)
+          (NLSnoc (NLSnoc (NLOne (NNum (ri [1])) (Some b1)) (NNum (ri [2])) (Some b1)) (NNum (ri [3])) None) None)].
+Example C12_paren_example :
+  cell_shape ex_fill_pad /\ render (cell_toks ex_fill_pad) = "1 0 (1:2)#3 fill=1 ( 1 2 3)"
+  /\ lr_run lr_cell (classes (cell_toks ex_fill_pad)) = LRAccept.
+Proof. repeat split; vm_compute; reflexivity. Qed.
+Definition ex_sdef0 : sdef0card := mkSdef0 None (mkDcls None "sdef" None []) None.
+Example C12_sdef_bare_example :
+  render (sdef0_toks ex_sdef0) = "sdef" /\ lr_run lr_param_only (classes (sdef0_toks ex_sdef0)) = LRAccept.
+Proof. split; vm_compute; reflexivity. Qed.
+Definition ex_mat_mixed : matcard :=
+  mkMat None 1%Z (Some b1) (mkZ true "1001.80c" (Some b1) (ri [1]) (Some b1))
+    [mkZ false "8016" (Some b1) (ri [1]) (Some b1)] [MPLib "elib" (SepEq None None) "03e" None].
+Example C12_material_mixed_example :
+  matcard_shape ex_mat_mixed /\ render (mat_card_toks ex_mat_mixed) = "m1 1001.80c 1 8016 1 elib=03e"
+  /\ lr_run lr_material (classes (mat_card_toks ex_mat_mixed)) = LRAccept.
+Proof. repeat split; vm_compute; reflexivity. Qed.
